@@ -176,8 +176,48 @@ fn table_case(
     out
 }
 
+/// near-collinear apex fans of C10 (integer coordinates, exact in f32 and f64): the result must not depend on
+/// how the two triangles are written down, in either float type — whatever the result is (in f32 many of these
+/// results are the known findings N3; invariance under representation is a separate question)
+pub fn fan_case(k: usize, swapped: bool, loc: &mut Local) -> Vec<(String, Value)> {
+    let (a, b) = super::c10::fan(k);
+    let (a, b) = if swapped { (b, a) } else { (a, b) };
+    let (va, vb) = (single_deviations(&a), single_deviations(&b));
+    let mut out = vec![];
+    for ft in [Ft::F64, Ft::F32] {
+        for op in OPS {
+            let base = match call_full(&a, &b, op, ft, Pairing::MM).res {
+                Ok(r) => r,
+                Err(_) => continue,
+            };
+            loc.transitions += 1;
+            let nb = ring_set(&base, Nf::U);
+            let mut check = |x: &MP, y: &MP, desc: String, loc: &mut Local| {
+                loc.transitions += 1;
+                let ok = match call_full(x, y, op, ft, Pairing::MM).res {
+                    Ok(r) => ring_set(&r, Nf::U) == nb,
+                    Err(_) => false,
+                };
+                if !ok {
+                    out.push((format!("C07 fan: representation-changes-result ({}) {} {}", ft.name(), desc.split(' ').next().unwrap_or(""), op_name(op)), json!({"variant": desc})));
+                }
+            };
+            for v in &va {
+                check(&v.mp, &b, format!("A:{}", v.desc), loc);
+            }
+            for v in &vb {
+                check(&a, &v.mp, format!("B:{}", v.desc), loc);
+            }
+        }
+    }
+    out
+}
+
 pub fn replay(case: &Value, verbose: bool) -> Vec<String> {
     let mut loc = Local::default();
+    if case["kind"] == "fan" {
+        return fan_case(case["k"].as_u64().unwrap() as usize, case["swapped"].as_bool().unwrap(), &mut loc).into_iter().map(|x| x.0).collect();
+    }
     if case["kind"] == "table" {
         let spec = TableSpec::from_json(&case["table"]);
         let t = spec.build();
@@ -313,6 +353,18 @@ pub fn run(tier: &str) -> i32 {
         }
         st.merge(&loc);
     });
+    st.family(&format!("{} near-collinear apex fans x 2 operand orders x every single deviation x f64 and f32: identical ring sets", super::c10::N_FANS));
+    for k in 0..super::c10::N_FANS {
+        for sw in [false, true] {
+            let mut loc = Local::default();
+            loc.states += 1;
+            loc.nontrivial += 1;
+            for (c, _) in fan_case(k, sw, &mut loc) {
+                loc.violation(&c, format!("fan:{k}:{sw}:{c}"), json!({"prop": "C07", "kind": "fan", "k": k, "swapped": sw}));
+            }
+            st.merge(&loc);
+        }
+    }
     let f = Family::new("G32");
     let v = single_deviations(&f.m[45]);
     st.sample(json!({"family": "G32", "a_mask": 45, "A": hex(&f.m[45]), "single_deviations_of_A": v.iter().map(|x| x.desc.clone()).collect::<Vec<_>>()}));
